@@ -12,18 +12,17 @@ META = {
             'published_converge: for every diagnosis function, every history and EVERY interleaving (timer firing although cancelled, a '
             'cancelled task publishing or not, stale tasks), at quiescence the last published set of every file the analysis holds is the '
             'diagnosis of its current text and a removed file ends with an empty (or no) published set -- by the invariant "stale => the '
-            'running handler or an uncancelled task of that file is pending". token_removal_race_reachable shows that the unconditional '
+            'running handler or an uncancelled task of that file is pending"; published_terminates / published_progress: every step other than a workspace-diagnostic publish consumes a measure and one exists before quiescence, so every fair execution of a finite history reaches quiescence. token_removal_race_reachable shows that the unconditional '
             'remove really deletes a newer task\'s token in a reachable state; the convergence theorem shows it is harmless. The order the model depends on is re-read from the source on every run (every clear_push_file_diagnostics comes after the removal and nothing is removed after it; the task publishes under analysis.read()) and re-proved as obligations (C30/Today.v); clear_first_refuted shows what goes wrong otherwise. Generated '
             'histories (edits with gaps inside / around / beyond the debounce interval, close, watched-file delete and change, a reload; closing an unsaved 2000-line buffer while its calibrated diagnosis is in flight) '
-            'are run against the real in-process server in push mode; at quiescence the last publishDiagnostics per uri is compared with a '
-            'fresh diagnosis (textDocument/diagnostic pull) of the current content.',
+            'are run against the real in-process server in push mode; at quiescence the last publishDiagnostics per uri is compared with a fresh diagnosis (textDocument/diagnostic pull) of the current content, and the MODEL is run on the same history (Corr.v: a deterministic schedule of the model\'s own steps, proved to be model steps by sched_sound) and the analysed text and last published set it predicts per uri are compared with the server\'s.',
     "note": 'Trusted: Coq kernel; the hand model of file_diagnostic.rs and of the handlers (validated by the quiescent correspondence on sampled '
             'schedules); diagnostics of one file are taken to depend on that file only (the generated documents are independent). Axioms: none.',
     "technique": "Coq proof (inductive invariant over all schedules of an LTS, abstract diagnosis function, reachability witness for the token race) "
                  "+ quiescent model-vs-implementation check and oracle search on the real in-process server with overlapping debounce windows",
 }
 
-THEOREMS = [("published_converge", "theorem"), ("stale_has_pending_task", "theorem"), ("token_removal_race_reachable", "refutation"),
+THEOREMS = [("published_converge", "theorem"), ("stale_has_pending_task", "theorem"), ("published_terminates", "theorem"), ("published_progress", "theorem"), ("token_removal_race_reachable", "refutation"),
             ("clear_first_refuted", "refutation"), ("converge_example", "example")]
 TODAY_THEOREMS = [("today_clear_after_remove", "table"), ("today_publish_under_read_lock", "table"), ("today_published_converge", "theorem")]
 FACT_TEXT = {'clear_after_remove': 'a clear_push_file_diagnostics call is no longer the last thing after the removal from the analysis (a diagnosis in flight publishes after the clear: clear_first_refuted)', 'publish_under_read_lock': 'the diagnostic task no longer publishes while holding analysis.read()', 'token_removed_after_publish': 'the diagnostic task no longer removes its token after publishing'}
@@ -44,14 +43,80 @@ TRUSTED = [
 
 
 def to_case(c):
+    """flatten the harness operations into the model's events (what each notification does to the analysed text of
+    its uri, per the handlers' code) and encode the observations"""
+    nd = len(c["docs"])
+    kind = [d["kind"] for d in c["docs"]]
+    opened, editor = set(), {}
+    present = {i: kind[i] == "D" for i in range(nd)}
+    events = []
+    # a "reload" request takes effect after the server's 2 s debounce, i.e. later in (or after) the history:
+    # re-order it to where it happens; histories where another operation falls within 400 ms of that moment
+    # are ambiguous and are not compared (returns None)
+    hist, clock, pending = [], 0, []
+    for h in c["hist"]:
+        while pending and clock >= pending[0] + 400:
+            hist.append(["reload"])
+            pending.pop(0)
+        if pending and h[0] != "sleep" and abs(clock - pending[0]) < 400:
+            return None
+        if h[0] == "reload":
+            pending.append(clock + 2000)
+            continue
+        if h[0] == "sleepcal":
+            return None if pending else hist.append(h)
+        if h[0] == "sleep":
+            clock += h[1]
+        else:
+            clock += 2
+        hist.append(h)
+    hist += [["reload"]] * len(pending)
+    for h in hist:
+        op = h[0]
+        d = (h[1] % nd) if len(h) > 1 and isinstance(h[1], int) and op not in ("sleep", "sleepcal") else None
+        if op in ("open", "change", "openbig"):
+            events.append("(true, %d, %d)" % (d, h[2]))
+            opened.add(d)
+            editor[d] = h[2]
+            present[d] = True
+        elif op == "close":
+            opened.discard(d)
+            if kind[d] == "D":
+                if present[d]:
+                    events.append("(true, %d, 0)" % d)      # the disk content again
+            else:
+                events.append("(false, %d, 0)" % d)          # not on disk: removed, diagnostics cleared
+                present[d] = False
+        elif op == "delete":
+            events.append("(false, %d, 0)" % d)
+            present[d] = False
+        elif op == "touch":
+            if d not in opened and kind[d] == "D":
+                events.append("(true, %d, 0)" % d)
+                present[d] = True
+        elif op == "reload":
+            for i in range(nd):
+                if i in opened:
+                    events.append("(true, %d, %d)" % (i, editor[i]))
+                    present[i] = True
+                elif kind[i] == "D":
+                    events.append("(true, %d, 0)" % i)
+                    present[i] = True
     obs = []
-    for o in c["obs"]:
+    for i, o in enumerate(c["obs"]):
         known = o["analysed"] is not None
-        cur = (o["open"] is None) or (o["open"] == o["analysed"])
-        obs.append("{| o_known := %s; o_open_is_current := %s; o_published := %s; o_fresh := %s; o_same := %s |}" % (
-            "true" if known else "false", "true" if cur else "false", coq_opt(o["published"]), coq_opt(o["fresh"]),
-            "true" if o["same"] else "false"))
-    return coq_list(obs)
+        if o["published"] is None:
+            pubc = 0
+        elif o["same"]:
+            pubc = 2
+        elif o["published"] == 0:
+            pubc = 1
+        else:
+            pubc = 3
+        obs.append("{| o_uri := %d; o_known := %s; o_text := %d; o_pub := %d; o_fresh_empty := %s |}" % (
+            i, "true" if known else "false", o["analysed"] if known else 0, pubc, "true" if (o["fresh"] == 0) else "false"))
+    disk = [str(i) for i in range(nd) if kind[i] == "D"]
+    return "{| c_disk := %s; c_events := %s; c_obs := %s |}" % (coq_list(disk), coq_list(events), coq_list(obs))
 
 
 def run(ck, binpath, mode, n):
@@ -97,13 +162,16 @@ def main(argv):
         ck.tie_broken("source anchors of the C30 model not found: %s" % ex)
     ok = ck.coq_make(["theories/C30/Props.vo", "theories/C30/Corr.vo"])
     if ok:
-        ck.coq_gates(["C30"], THEOREMS, "EV.C30.Props")
+        ck.coq_gates(["C30"], THEOREMS + [("sched_sound", "theorem"), ("run_model_reach", "theorem")], ["EV.C30.Props", "EV.C30.Corr"])
     if ok and facts is not None and ck.coq_make(["theories/C30/Today.vo"]):
         ck.coq_gates([], TODAY_THEOREMS, "EV.C30.Today")
     if bins:
         if ok or os.path.exists(os.path.join(COQ, "theories/C30/Corr.vo")):
-            cases = [c for c in run(ck, bins["c30"], "corr", ck.scale(15, 200)) if "obs" in c]
-            failing = ck.coq_failing("corr", [to_case(c) for c in cases], ["Coq.Lists.List", "Coq.NArith.NArith", "EV.C30.Corr"], case_type="case",
+            cases = [c for c in run(ck, bins["c30"], "corr", ck.scale(15, 60)) if "obs" in c]
+            terms = [(c, to_case(c)) for c in cases]
+            ck.cov["distribution"]["corr_ambiguous_reload_timing_skipped"] = sum(1 for _, t in terms if t is None)
+            cases = [c for c, t in terms if t is not None]
+            failing = ck.coq_failing("corr", [t for _, t in terms if t is not None], ["Coq.Lists.List", "Coq.NArith.NArith", "EV.C30.Model", "EV.C30.Corr"], case_type="case",
                                      prelude="Import ListNotations.")
             for i in failing or []:
                 ck.tie_broken("model/implementation disagreement at quiescence (C30)", json.dumps(cases[i])[:3000])
@@ -114,7 +182,7 @@ def main(argv):
             ck.cov["distribution"]["corr_histories"] = len(cases)
         if ck.broken:
             ck.deep = True
-        for v in run(ck, bins["c30"], "search", ck.scale(30, 600)):
+        for v in run(ck, bins["c30"], "search", ck.scale(30, 250)):
             if "summary" in v:
                 ck.cov["distribution"]["search"] = v["summary"]
                 ck.add_measured(v["summary"]["histories"], v["summary"]["distinct_nontrivial"])
